@@ -1388,6 +1388,24 @@ class Executor:
             return out
         if any(isinstance(a, ast.Starred) for a in e.args) or any(k.arg is None for k in e.keywords):
             return self.call_with_star(e, st)
+        if self.in_spec and isinstance(f, ast.Name) and f.id == "implies" and len(e.args) == 2 and "implies" not in st.env:
+            # contract text: the consequent is only evaluated where the antecedent can hold (it may name a local that
+            # does not exist on a path where the antecedent is false)
+            out = []
+            for (s, a) in self.ev(e.args[0], st):
+                if is_exc(a):
+                    out.append((s, a))
+                    continue
+                ta = self.truth(a, s, e)
+                if not self.solver.feasible(s.pc + [ta]):
+                    out.append((s, Z(V.mk(True), "bool")))
+                    continue
+                for (s2, b) in self.ev(e.args[1], s):
+                    if is_exc(b):
+                        out.append((s2, b))
+                    else:
+                        out.append((s2, Z(V.VBool(z3.Implies(ta, self.truth(b, s2, e))), "bool")))
+            return out
         out = []
         for (s, fv) in (self.ev_Attribute(f, st, for_call=True) if isinstance(f, ast.Attribute) else self.ev(f, st)):
             if is_exc(fv):
